@@ -44,6 +44,12 @@ impl Gen {
         // distinct, not monotone in either axis
         let i = self.n as f64;
         self.n += 1;
+        if self.n % 5 == 0 {
+            // every fifth free coordinate has components of very different magnitude and sign (still pairwise distinct): traversals must carry the
+            // stored values themselves
+            let k = self.n as f64;
+            return cc(if self.n % 10 == 0 { -1e16 - k * 4.0 } else { 1e-7 * (k + 1.0) }, if self.n % 10 == 0 { 3e-9 * (k + 1.0) } else { 7e15 + k * 2.0 });
+        }
         cc(1000.0 + ((self.n * 37) % 101) as f64 + i / 1024.0, 2000.0 + ((self.n * 53) % 89) as f64 - i / 512.0)
     }
     /// a ring of k free vertices inside the box [bx, bx+w] x [by, by+w], explicitly closed
